@@ -82,6 +82,10 @@ func c06Materialize(wd string, f map[string]interface{}, n int) string {
 	if cycle == "i1-i1" {
 		i1inc = append(i1inc, "  - compose.yaml\n")
 	}
+	if b("csib") {
+		i1inc = append(i1inc, "  - ../INC1/compose.yaml\n")
+		c06Write(wd, "INC1/compose.yaml", "services:\n  sup: "+c06Svc+"\n")
+	}
 	if len(i1inc) > 0 {
 		i1 += "include:\n" + strings.Join(i1inc, "")
 	}
